@@ -5,7 +5,7 @@ from .. import graphs as G
 from .. import oracles as O
 from .. import rng as rngmod
 from . import rewire as RW
-from .common import two_disjoint_edges
+from .common import two_disjoint_edges, layout_variants_agree
 
 PROP = 'C01'
 ANCHORS = RW.ALL
@@ -204,4 +204,15 @@ def run(case, bct, REC):
                 RW.execute(REC, bct, f, R, {'alpha': [0, .5, 1.0, 1.0][itr]}, rng)
             else:
                 RW.execute(REC, bct, f, R, {'itr': itr}, rng)
+    if n <= 8 and case['rs'] % 5 == 0:
+        if f in RW.LAT:
+            layout_variants_agree(REC, PROP, f, getattr(bct, f), R, args=(1,), make_kwargs=lambda: {'seed': rngmod.make_rng({'kind': 'spy', 'seed': 3})})
+        elif f == 'randomize_graph_partial_und' and not has_valid_swap(R, np.zeros((n, n))):
+            pass
+        elif f == 'randomize_graph_partial_und':
+            layout_variants_agree(REC, PROP, f, getattr(bct, f), R, args=(np.zeros((n, n)), 1), make_kwargs=lambda: {'seed': rngmod.make_rng({'kind': 'spy', 'seed': 3})})
+        elif f == 'randomizer_bin_und':
+            layout_variants_agree(REC, PROP, f, getattr(bct, f), R, args=(1.0,), make_kwargs=lambda: {'seed': rngmod.make_rng({'kind': 'spy', 'seed': 3})})
+        else:
+            layout_variants_agree(REC, PROP, f, getattr(bct, f), R, args=(2,), make_kwargs=lambda: {'seed': rngmod.make_rng({'kind': 'spy', 'seed': 3})})
     REC.sample(PROP, {'kind': 'single', 'f': f, 'R': R if n <= 8 else case['g'], 'itrs': case['itrs'], 'rngs': descrs})
